@@ -469,7 +469,15 @@ func c12placement(rep *vh.Report, r *vh.RNG, kind, point string, k int, consumer
 				m := &MessageVfUid{Uid: uint64(w)<<32 | uint64(i)}
 				open := cons.openChannels()
 				atomic.AddInt32(&inWrite, 1)
-				switch wr.Intn(4) {
+				switch wr.Intn(6) {
+				case 4:
+					if len(open) > 0 {
+						_ = env.node.WriteFrameTo(open[wr.Intn(len(open))].Ch, &frameV2{Message: m, SystemID: 3, ComponentID: 1})
+					}
+				case 5:
+					if len(open) > 0 {
+						_ = env.node.WriteFrameExcept(open[wr.Intn(len(open))].Ch, &frameV2{Message: m, SystemID: 3, ComponentID: 1})
+					}
 				case 0:
 					_ = env.node.WriteMessageAll(m)
 				case 1:
@@ -592,6 +600,21 @@ func c12placement(rep *vh.Report, r *vh.RNG, kind, point string, k int, consumer
 		go func() {
 			_ = env.node.WriteMessageAll(&MessageVfUid{Uid: 1})
 			_ = env.node.WriteFrameAll(&frameV2{Message: &MessageVfUid{Uid: 2}})
+			// all six flavours, with channel objects that existed before the close
+			for _, ci := range cons.allChannels() {
+				if ci.Ch == nil {
+					continue
+				}
+				_ = env.node.WriteMessageTo(ci.Ch, &MessageVfUid{Uid: 3})
+				_ = env.node.WriteMessageExcept(ci.Ch, &MessageVfUid{Uid: 4})
+				_ = env.node.WriteFrameTo(ci.Ch, &frameV2{Message: &MessageVfUid{Uid: 5}})
+				_ = env.node.WriteFrameExcept(ci.Ch, &frameV2{Message: &MessageVfUid{Uid: 6}})
+				break
+			}
+			_ = env.node.WriteMessageTo(nil, &MessageVfUid{Uid: 7})
+			_ = env.node.WriteFrameTo(nil, &frameV2{Message: &MessageVfUid{Uid: 8}})
+			_ = env.node.WriteMessageExcept(nil, &MessageVfUid{Uid: 9})
+			_ = env.node.WriteFrameExcept(nil, &frameV2{Message: &MessageVfUid{Uid: 10}})
 			close(done)
 		}()
 		select {
@@ -759,6 +782,9 @@ func TestC12(t *testing.T) {
 					if v, _ := repExtraBool(rep, "aborted_after_stuck_close"); v {
 						stuck = true
 					}
+					if rep.NViolationEvents() >= 3 {
+						stuck = true // enough witnesses: every further placement would wait for the same time-outs
+					}
 					if stuck {
 						break
 					}
@@ -778,6 +804,9 @@ func TestC12(t *testing.T) {
 				continue
 			}
 			c12placement(rep, r, kind, "", 0, i%2 == 0, 3, 0)
+			if rep.NViolationEvents() >= 3 {
+				stuck = true
+			}
 		}
 	}
 	gomavlib.VerifSetHook(nil)
